@@ -95,12 +95,12 @@ Definition rules_kept (c : cfg) (hs : list hop) : bool :=
    request's — a frame argument like the one for the content in C01Hist*.v, about
    r_access/r_ip/r_ua); tested below. What is proved is in C01Live2.v. *)
 Definition C01_liveness_statement : Prop :=
-  forall c hs, forallb (c01_hop false) hs = true -> rules_kept c hs = true -> mono_time hs = true ->
+  forall c hs, forallb c01_hop hs = true -> rules_kept c hs = true -> mono_time hs = true ->
     l_run live_cond (c, []) (mkWorld (init_st c) []) hs = true.
 
 (* the variant with Start's peer/agent rules in place of "same peer, same agent" *)
 Definition C01_liveness_rules_statement : Prop :=
-  forall c hs, forallb (c01_hop false) hs = true -> rules_kept c hs = true -> mono_time hs = true ->
+  forall c hs, forallb c01_hop hs = true -> rules_kept c hs = true -> mono_time hs = true ->
     l_run live_cond_rules (c, []) (mkWorld (init_st c) []) hs = true.
 
 (* --- tests --- *)
@@ -114,11 +114,11 @@ Definition B1 := V4 20 0 0 1 80.
 (* expiry 1000, cache sizes 1 and 10 and unbounded, rotation on every request /
    never / after 300, both codecs (time unit so that the JSON resolution of one
    second is small), two clients evicting each other, purges, exclusive logins
-   touching the other session, user-wide operations, waits below and above the
+   touching the other session, GetAndDelete, user-wide operations, waits below and above the
    expiry *)
 Definition hist_live : list hop :=
   [rq' 1 A1 7 true [SSet 1 2; SLogIn (5, 1)%N false]; rq' 2 B1 8 true [SSet 1 3; SLogIn (5, 2)%N false];
-   HWait 400000000000; rq' 1 A2 7 false [SSet 4 5]; HWait 400000000000; rq' 2 B1 8 false [SGet 1];
+   HWait 400000000000; rq' 1 A2 7 false [SSet 4 5]; HWait 400000000000; rq' 2 B1 8 false [SGetDel 1; SGet 1];
    HPurge [] []; HWait 500000000000; rq' 1 A1 7 false [SRegen]; rq' 2 B1 8 false [SLogIn (5, 3)%N true];
    HWait 900000000000; rq' 1 A1 7 false [SGet 4]; HLogoutUser 5 [] []; HWait 900000000000; rq' 2 B1 8 false [];
    HWait 1100000000000; rq' 1 A1 7 true [SGet 4]; rq' 2 B1 8 true [];
@@ -129,7 +129,7 @@ Definition cfL (idx mx : Z) (js : bool) : cfg :=
   mkCfg 1000000000000 idx 100000000000 1000000000000 mx 3 false js.
 
 Example C01_liveness_tests :
-  forallb (c01_hop false) hist_live = true /\ mono_time hist_live = true /\
+  forallb c01_hop hist_live = true /\ mono_time hist_live = true /\
   forallb (fun x : Z * Z * bool =>
              l_run live_cond (cfL (fst (fst x)) (snd (fst x)) (snd x), [])
                    (mkWorld (init_st (cfL (fst (fst x)) (snd (fst x)) (snd x))) []) hist_live)
